@@ -27,8 +27,16 @@ def PolicySet.applyOp (ps : PolicySet) : CoreOp → Step PolicySet
 /-- the one precondition under which the public API layer calls the core `link`: the template id is not
 the id of a (static) policy -/
 def CoreOp.admissible (ps : PolicySet) : CoreOp → Prop
-  | .link tid _ _ => ps.links.get? tid = none
+  | .link tid _ _ => ps.links.contains tid = false
   | _ => True
+
+instance CoreOp.decAdmissible (ps : PolicySet) : (op : CoreOp) → Decidable (op.admissible ps)
+  | .link tid _ _ => inferInstanceAs (Decidable (ps.links.contains tid = false))
+  | .addStatic _ => isTrue trivial
+  | .addTemplate _ => isTrue trivial
+  | .unlink _ => isTrue trivial
+  | .removeStatic _ => isTrue trivial
+  | .removeTemplate _ => isTrue trivial
 
 /-- `a` (the state after a failed call) has the same content as `b` (the state before), as maps: what a failed
 `remove_static` may change is only the position of one link in the iteration order -/
@@ -227,7 +235,7 @@ theorem PolicySet.applyOp_wf (ps : PolicySet) (op : CoreOp) (wf : ps.WF) (adm : 
     cases op with
     | addStatic b => exact PolicySet.addStatic_wf ps b wf herr
     | addTemplate t => exact PolicySet.addTemplate_wf ps t wf herr
-    | link tid newId vals => exact PolicySet.link_wf ps tid newId vals wf adm herr
+    | link tid newId vals => exact PolicySet.link_wf ps tid newId vals wf ((contains_false _ _).mp adm) herr
     | unlink id => exact PolicySet.unlink_wf ps id wf herr
     | removeStatic id => exact PolicySet.removeStatic_wf ps id wf herr
     | removeTemplate id => exact PolicySet.removeTemplate_wf ps id wf herr
@@ -246,6 +254,16 @@ def PolicySet.run (ps : PolicySet) : List CoreOp → PolicySet
 def PolicySet.admissibleHist (ps : PolicySet) : List CoreOp → Prop
   | [] => True
   | op :: ops => op.admissible ps ∧ PolicySet.admissibleHist (ps.applyOp op).ps ops
+
+def PolicySet.decAdmissibleHist : (ops : List CoreOp) → (ps : PolicySet) → Decidable (ps.admissibleHist ops)
+  | [], _ => isTrue trivial
+  | op :: ops, ps =>
+    match CoreOp.decAdmissible ps op, PolicySet.decAdmissibleHist ops (ps.applyOp op).ps with
+    | isTrue a, isTrue b => isTrue ⟨a, b⟩
+    | isFalse a, _ => isFalse (fun h => a h.1)
+    | _, isFalse b => isFalse (fun h => b h.2)
+
+instance (ps : PolicySet) (ops : List CoreOp) : Decidable (ps.admissibleHist ops) := PolicySet.decAdmissibleHist ops ps
 
 theorem PolicySet.run_wf (ops : List CoreOp) : ∀ (ps : PolicySet), ps.WF → ps.admissibleHist ops → (ps.run ops).WF := by
   induction ops with
